@@ -366,7 +366,7 @@ class Queue(Greenlet):
                 groups.append((replies[i], group_env))
         return groups
 
-    def _retry_later(self, id, envelope, replies):
+    def _retry_later(self, id, envelope, replies, delivered=None):
         attempts = self.store.increment_attempts(id)
         wait = self.backoff(envelope, attempts)
         if wait is None:
@@ -378,6 +378,8 @@ class Queue(Greenlet):
         else:
             when = time.time() + wait
             self.store.set_timestamp(id, when)
+            if delivered is not None:
+                self.store.set_recipients_delivered(id, delivered)
             self.active_ids.discard(id)
             self._add_queued((when, id))
             return True
@@ -424,12 +426,9 @@ class Queue(Greenlet):
         if tempfails:
             rcpts, replies = zip(*tempfails)
             fail_env = envelope.copy(rcpts)
-            if not self._retry_later(id, fail_env, replies):
-                return
+            self._retry_later(id, fail_env, replies, delivered)
         else:
             self.store.remove(id)
-            return
-        self.store.set_recipients_delivered(id, delivered)
 
     def _dequeue(self, id):
         try:
